@@ -1602,7 +1602,9 @@ class ContactHandler(Messenger, dbus.service.Object):
             ext_items.append(
                 messages.TransferExtendHeader() / extend.TransferTotalLength(total_length=self._tx_tmp.total_length)
             )
-        data = self._tx_tmp.file.read(self._send_segment_size)
+        # never ask for more than what is left (the segment size may be as
+        # large as the peer's segment MRU, up to 2^64-1)
+        data = self._tx_tmp.file.read(min(self._send_segment_size, self._tx_tmp.total_length - self._tx_length))
         self._tx_length += len(data)
         if self._tx_length == self._tx_tmp.total_length:
             flg |= messages.TransferSegment.Flag.END
